@@ -207,7 +207,7 @@ func nativeOverlay(pkgPath string, extra []string, tmp string) (string, error) {
 	}
 	sort.Strings(harnessFns)
 	var tb strings.Builder
-	fmt.Fprintf(&tb, "package %s\n\nimport (\n\t\"fmt\"\n\t\"os\"\n\t\"runtime/debug\"\n\t\"testing\"\n\t\"time\"\n)\n\n", pkgName)
+	fmt.Fprintf(&tb, "package %s\n\nimport (\n\t\"fmt\"\n\t\"os\"\n\t\"runtime\"\n\t\"runtime/debug\"\n\t\"testing\"\n\t\"time\"\n)\n\n", pkgName)
 	tb.WriteString("var zzHarnessTable = map[string]func(){\n")
 	for _, n := range harnessFns {
 		fmt.Fprintf(&tb, "\t%q: %s,\n", n, n)
@@ -220,6 +220,7 @@ func nativeOverlay(pkgPath string, extra []string, tmp string) (string, error) {
 		t.Fatalf("ZZ-NOHARNESS %s", name)
 	}
 	done := make(chan string, 1)
+	zzBaseGoroutines = runtime.NumGoroutine()
 	go func() {
 		msg := "ZZ-GOEXIT"
 		defer func() {
